@@ -25,7 +25,8 @@ Accepted subset (anything else raises TranslateError with file:line):
               a[i]... op= e and a[i]....append(e) / .insert(i, e) through any path of
               subscripts rooted at a variable (read on the way down, written back on
               the way up);  x = y['key'] of a list-valued key of a record (x is then
-              an ALIAS of that part of y: reads and updates go to y);  d[k] = e on a
+              an ALIAS of that part of y: reads and updates go to y; likewise y after
+              x = {..., 'key': y} with a list variable y);  d[k] = e on a
               dict;  if / elif / else;  for x in <file> / <list> / <str> with break,
               continue, else;  while <pure test>;  try / except C [as n] (no else /
               finally), nested;  with codecs.open(name, 'r', encoding=e
@@ -41,7 +42,7 @@ Accepted subset (anything else raises TranslateError with file:line):
               ZeroDivisionError);  l[i], s[i], l[a:b], s[a:b], d['key'], d[k];  len,
               float, int;  s.rstrip() / .lstrip() / .strip() without argument,
               s.split(<one-character constant>), s.isalpha();  os.path.join(...);
-              e.reason on a caught UnicodeEncodeError;  [] and [e, ...];  the dict
+              e.reason on a caught UnicodeEncodeError;  f-strings of str-valued fields;  [] and [e, ...];  the dict
               literals of the two record shapes and {}.
 
 Exceptions are values (LoaderRt.outcome): IndexError of a subscript, KeyError,
@@ -164,8 +165,10 @@ def eqb_of(t, node_fail):
 SPECS = [
     dict(source="lib_guesser/grammar_io.py", py="_load_from_file", coq="py_load_from_file",
          params=[LIST(ITEM), STR, STR], out=[0], ret=BOOL),
+    # fuel=True: the generated function always has the fuel argument (the loop that inserts C<n> is a
+    # `while` today; written as a `for` it needs none, and the signature must not depend on that)
     dict(source="lib_guesser/grammar_io.py", py="_load_base_structures", coq="py_load_base_structures",
-         params=[LIST(BASE), STR, BOOL, STR], out=[0], ret=BOOL),
+         params=[LIST(BASE), STR, BOOL, STR], out=[0], ret=BOOL, fuel=True),
     dict(source="lib_scorer/grammar_io.py", py="_load_from_file", coq="py_scorer_load_from_file",
          params=[DICT(STR, FLOAT), STR, STR], out=[0], ret=BOOL),
     dict(source="lib_guesser/grammar_io.py", py="load_omen_keyspace", coq="py_load_omen_keyspace",
@@ -269,16 +272,17 @@ class K:
     exception become; `states` are the variables carried by the enclosing joins / loops / try
     blocks (such a variable cannot be moved into a container)"""
 
-    def __init__(self, fall, cont, brk, ret, exc, states=(), seek_brk=None, frozen=(), in_try=False):
+    def __init__(self, fall, cont, brk, ret, exc, states=(), seek_brk=None, frozen=(), in_try=False, outer=()):
         self.fall, self.cont, self.brk, self.ret, self.exc = fall, cont, brk, ret, exc
         self.in_try = in_try
+        self.outer = frozenset(outer)   # inside a loop body: the variables bound when the loop was entered
         self.states = tuple(states)
         self.seek_brk = seek_brk        # (file variable, text generator) inside a loop over a file
         self.frozen = tuple(frozen)     # containers iterated by an enclosing loop: not to be touched
 
     def derive(self, **kw):
         d = dict(fall=self.fall, cont=self.cont, brk=self.brk, ret=self.ret, exc=self.exc,
-                 states=self.states, seek_brk=self.seek_brk, frozen=self.frozen, in_try=self.in_try)
+                 states=self.states, seek_brk=self.seek_brk, frozen=self.frozen, in_try=self.in_try, outer=self.outer)
         d.update(kw)
         return K(**d)
 
@@ -287,7 +291,7 @@ class FunctionTranslator:
     def __init__(self, path, fn, spec):
         self.path, self.fn, self.spec = path, fn, spec
         self.uid = 0
-        self.uses_fuel = any(isinstance(n, ast.While) for n in ast.walk(fn))
+        self.uses_fuel = bool(spec.get("fuel")) or any(isinstance(n, ast.While) for n in ast.walk(fn))
         self.context_used = set()
 
     # -------------------------------------------------------------- errors / names
@@ -533,6 +537,24 @@ class FunctionTranslator:
                     self.fail(e, ".reason of a value that is not a caught exception")
                 return st, "rt_reason %s" % _paren(a), STR
             self.fail(e, "unsupported attribute")
+        if isinstance(e, ast.JoinedStr):
+            # f'...{s}...' with str-valued fields and no conversion / format spec: concatenation
+            steps, parts = [], []
+            for v in e.values:
+                if isinstance(v, ast.Constant) and type(v.value) is str:
+                    if v.value:
+                        parts.append(cstr(v.value))
+                elif isinstance(v, ast.FormattedValue) and v.conversion == -1 and v.format_spec is None:
+                    st, t, ty = self.expr(v.value, env)
+                    if not unify(ty, STR):
+                        self.fail(e, "an f-string field of type %s (str() of other types is not modelled)" % (resolve(ty),))
+                    steps += st
+                    parts.append(_paren(t))
+                else:
+                    self.fail(e, "unsupported f-string")
+            if not parts:
+                return steps, cstr(""), STR
+            return steps, " ++ ".join(parts), STR
         if isinstance(e, ast.List):
             steps, parts, ty = [], [], TVar()
             for x in e.elts:
@@ -612,6 +634,12 @@ class FunctionTranslator:
             s1, (a, ta) = [], left_done
         s2, b, tb = self.expr(right, env)
         ta, tb = resolve(ta), resolve(tb)
+        if isinstance(ta, TVar) and not isinstance(tb, TVar) and not (isinstance(op, ast.Mult) and tb == INT):
+            unify(ta, tb)
+            ta = resolve(ta)
+        if isinstance(tb, TVar) and not isinstance(ta, TVar) and not isinstance(op, ast.Mult):
+            unify(tb, ta)
+            tb = resolve(tb)
         if ta == ANY:
             ta = tb if not (isinstance(op, ast.Mult) and tb == INT) else ANY
         if tb == ANY:
@@ -706,6 +734,8 @@ class FunctionTranslator:
                 self.fail(v, "value of key %r has type %s" % (k, resolve(ty)))
             steps += st
             vals[k] = t
+            if isinstance(v, ast.Name) and v.id in env.types and is_mutable(env.types[v.id]):
+                self.last_record_fields.append((v.id, rec, k))
             self.move(v, env)
         order = list(RECORDS[rec])
         return steps, "{| %s |}" % "; ".join("%s := %s" % (RECORDS[rec][k][0], vals[k]) for k in order), rec
@@ -774,8 +804,11 @@ class FunctionTranslator:
         if isinstance(e, ast.Name) and e.id in env.types and is_mutable(env.types[e.id]):
             if e.id in self.cur_states:
                 self.fail(e, "%r is stored in a container while an enclosing loop / try / conditional carries it" % e.id)
+            if e.id in self.cur_outer:
+                self.fail(e, "%r, bound outside the loop, is stored in a container inside the loop (it would be shared)" % e.id)
             env.kill(e.id)
             del env.types[e.id]
+            self.moved_log.append(e.id)
         elif isinstance(e, ast.Name) and e.id in env.alias:
             self.fail(e, "an alias is stored in a container")
         elif isinstance(e, (ast.Subscript, ast.Attribute)) and not isinstance(e, ast.Constant):
@@ -847,6 +880,15 @@ class FunctionTranslator:
                 e.kill(n)
         return e
 
+    def prune_moved(self, env, mark):
+        """after a compound statement: a variable moved into a container on some path through it
+        is gone on every path (it may be shared with the container)"""
+        for n in self.moved_log[mark:]:
+            if n in env.types:
+                env.kill(n)
+                del env.types[n]
+        return env
+
     @staticmethod
     def terminates(stmts):
         if not stmts:
@@ -879,6 +921,7 @@ class FunctionTranslator:
         s, rest = stmts[0], stmts[1:]
         self.cur_states = set(k.states)
         self.cur_frozen = set(k.frozen)
+        self.cur_outer = set(k.outer)
 
         def after(env2, ind2):
             return self.block(rest, env2, k, ind2)
@@ -953,7 +996,9 @@ class FunctionTranslator:
                 env.kill(x)
                 env.alias[x] = (v.value.id, resolve(env.types[v.value.id]), v.slice.value)
                 return self.line(ind, "(* %s is %s[%r] from here on *)" % (x, v.value.id, v.slice.value), s) + after(env, ind)
+            self.last_record_fields = []
             steps, text, ty = self.expr(v, env)
+            fields = self.last_record_fields if isinstance(v, ast.Dict) else []
             if resolve(ty) != ANY and is_mutable(ty) and not self.is_fresh_value(v):
                 self.fail(s, "a second name for a mutable value (aliasing is not modelled)")
             if resolve(ty) in (EXN, FILE):
@@ -961,8 +1006,31 @@ class FunctionTranslator:
 
             def body(i, n):
                 self.bind(s, x, ty, env)
-                return self.line(i, "let %s := %s in" % (v_(x), text), n) + after(env, i)
+                out = self.line(i, "let %s := %s in" % (v_(x), text), n)
+                # x = {..., 'key': y, ...} with a list variable y: y and x['key'] are the same list from
+                # here on, so y lives on as an alias of that part of x
+                for var, rec, key in fields:
+                    if var != x:
+                        env.alias[var] = (x, rec, key)
+                        out += self.line(i, "(* %s is %s[%r] from here on *)" % (var, x, key))
+                return out + after(env, i)
             return self.with_steps(steps, env, k, ind, s, body)
+        if isinstance(t, ast.Subscript) and isinstance(t.slice, ast.Slice):
+            # a[...][:] = e : the content of the list is replaced in place (a copy of e)
+            if t.slice.lower is not None or t.slice.upper is not None or t.slice.step is not None:
+                self.fail(s, "slice assignment other than x[:] = e")
+            steps, text, ty = self.expr(v, env)
+            lt = self.type_of(t.value, env)
+            if not (isinstance(lt, tuple) and lt[0] == "list") or not unify(lt, ty):
+                self.fail(s, "x[:] = e with x of type %s and e of type %s" % (lt, resolve(ty)))
+            if is_mutable(lt[1]):
+                self.fail(s, "x[:] = e on a list of mutable elements (they would be shared)")
+            s2, root, upd = self.upd(t.value, env, lambda old: "Done %s" % _paren(text), None, s)
+
+            def body(i, n):
+                return _close(self.line(i, "rt_bind (%s) (fun e => %s) (fun %s =>" % (upd, k.exc(env, "e"), v_(root)), n)
+                              + after(env, i), ")")
+            return self.with_steps(steps + s2, env, k, ind, s, body)
         if isinstance(t, ast.Subscript):
             steps, text, ty = self.expr(v, env)
             if resolve(ty) != ANY and is_mutable(ty) and not (self.is_fresh_value(v) or isinstance(v, ast.Name)):
@@ -984,9 +1052,8 @@ class FunctionTranslator:
                     return self.line(i, "let %s := rt_dset %s %s %s %s in" % (v_(d), eqb, _paren(kx), _paren(text), v_(d)), n) \
                         + after(env, i)
                 return self.with_steps(steps + s2, env, k, ind, s, body)
+            # Python evaluates the right-hand side first, then the target's subscripts, then stores
             s2, root, upd = self.upd(t, env, lambda old: "Done %s" % _paren(text), ty, s)
-            if steps and s2:
-                self.fail(s, "both sides of the store can raise (evaluation order)")
 
             def body(i, n):
                 self.move(v, env)
@@ -1163,6 +1230,7 @@ class FunctionTranslator:
         hdr = ast.copy_location(ast.Expr(value=s.test), s)
 
         def emit(i, n):
+            mark = len(self.moved_log)
             head = "  " * i + "if %s then" % c
             head = head + " " * max(2, 72 - len(head)) + "(* %d: if %s *)\n" % (s.lineno, _comment(ast.unparse(s.test))[:100])
             if not rest or bt or et:
@@ -1182,7 +1250,7 @@ class FunctionTranslator:
             out += self.block(body, env.copy(), kk, i + 2)
             out += self.line(i + 1, "else")
             out += _close(self.block(orelse, env.copy(), kk, i + 2), ")")
-            e3 = self.after_join(env, names, body + orelse)
+            e3 = self.prune_moved(self.after_join(env, names, body + orelse), mark)
             out += self.line(i, "(fun %s =>" % pat)
             out += _close(after(e3, i), ")")
             return out
@@ -1206,12 +1274,13 @@ class FunctionTranslator:
                  ret=lambda e2, t, ty, n: "%s (%s)" % (ret_t, k.ret(e2, t, ty, n)),
                  exc=lambda e2, ex: "%s (%s)" % (ret_t, k.exc(e2, ex)),
                  states=k.states + tuple(names) + tuple(extra_states), frozen=k.frozen + tuple(frozen),
-                 in_try=k.in_try)
+                 in_try=k.in_try, outer=set(env.types))
 
     def for_(self, s, rest, env, k, ind, after):
         if not isinstance(s.target, ast.Name):
             self.fail(s, "unsupported loop target")
         x = s.target.id
+        mark = len(self.moved_log)
         self.check_name(s, x)
         if x in self.params:
             self.fail(s, "a parameter is the loop variable")
@@ -1244,11 +1313,11 @@ class FunctionTranslator:
                     return self.line(i2, "%s %s %s" % (kn, v_(fv), tup))
                 ek = k.derive(fall=fall, states=k.states + tuple(names) + (fv,))
                 out += self.line(ind + 1, "(fun %s %s %s =>" % ("(%s : rt_file)" % v_(fv), pat, kn))
-                out += _close(self.block(s.orelse, e3.copy(), ek, ind + 2), ")")
+                out += _close(self.block(s.orelse, self.prune_moved(e3.copy(), mark), ek, ind + 2), ")")
             else:
                 out += self.line(ind + 1, "rt_no_else_file")
             out += self.line(ind, "(fun %s %s =>" % ("(%s : rt_file)" % v_(fv), pat))
-            out += _close(after(e3, ind), ")")
+            out += _close(after(self.prune_moved(e3, mark), ind), ")")
             return out
         # ---- a loop over a list / the characters of a str
         steps, l, tl = self.expr(it, env)
@@ -1300,7 +1369,7 @@ class FunctionTranslator:
                 out += _close(self.block(s.body, inner, bk, i + 2), ")")
                 out += self.line(i + 1, tup)
                 out += self.line(i, "(fun %s %s =>" % ("(%s : %s)" % (v_(cv), coq_type(tl)), pat))
-                out += _close(after(e3, i), ")")
+                out += _close(after(self.prune_moved(e3, mark), i), ")")
                 return out
             return self.with_steps(steps, env, k, ind, None, emit)
         bk = self.loop_k(k, names, tup, env, s, ("LCont", "LBrk", "LRet"), extra_states=(x,), frozen=tuple(roots))
@@ -1317,15 +1386,16 @@ class FunctionTranslator:
                     return self.line(i2, "%s %s" % (kn, tup))
                 ek = k.derive(fall=fall, states=k.states + tuple(names))
                 out += self.line(i + 1, "(fun %s %s =>" % (pat, kn))
-                out += _close(self.block(s.orelse, e3.copy(), ek, i + 2), ")")
+                out += _close(self.block(s.orelse, self.prune_moved(e3.copy(), mark), ek, i + 2), ")")
             else:
                 out += self.line(i + 1, "rt_no_else")
             out += self.line(i, "(fun %s =>" % pat)
-            out += _close(after(e3, i), ")")
+            out += _close(after(self.prune_moved(e3, mark), i), ")")
             return out
         return self.with_steps(steps, env, k, ind, None, emit)
 
     def while_(self, s, rest, env, k, ind, after):
+        mark = len(self.moved_log)
         names = [n for n in self.assigned(s.body, env) if n in env.types]
         tup, pat = self.state(names, env)
         inner = self.after_join(env, names, s.body)
@@ -1348,17 +1418,18 @@ class FunctionTranslator:
                 return self.line(i2, "%s %s" % (kn, tup))
             ek = k.derive(fall=fall, states=k.states + tuple(names))
             out += self.line(ind + 1, "(fun %s %s =>" % (pat, kn))
-            out += _close(self.block(s.orelse, e3.copy(), ek, ind + 2), ")")
+            out += _close(self.block(s.orelse, self.prune_moved(e3.copy(), mark), ek, ind + 2), ")")
         else:
             out += self.line(ind + 1, "rt_no_else")
         out += self.line(ind, "(fun %s =>" % pat)
-        out += _close(after(e3, ind), ")")
+        out += _close(after(self.prune_moved(e3, mark), ind), ")")
         out += self.line(ind + 1, _paren(k.exc(env, "EOutOfFuel")))
         return out
 
     def try_(self, s, rest, env, k, ind, after):
         if s.orelse or s.finalbody or not s.handlers:
             self.fail(s, "try with else / finally / without except")
+        mark = len(self.moved_log)
         names = [n for n in self.assigned(s.body, env) if n in env.types]
         tup, pat = self.state(names, env)
         hn = self.fresh("h")
@@ -1380,8 +1451,11 @@ class FunctionTranslator:
                 return self.line(i2, "%s %s" % (kn, jtup))
             kk = k.derive(fall=jfall, states=k.states + tuple(allnames))
             out += self.line(ind, "rt_join (fun %s =>" % kn)
-        # the handler chain
-        henv = self.after_join(env, names, s.body)
+        bk = kk.derive(exc=lambda e2, ex: (self.check_state(s, names, env, e2), "%s %s %s" % (hn, _paren(ex), tup))[1],
+                       states=kk.states + tuple(names), in_try=True)
+        body_text = self.block(s.body, env.copy(), bk, ind)
+        # the handler chain (translated after the body: a variable the body moved into a container is gone here too)
+        henv = self.prune_moved(self.after_join(env, names, s.body), mark)
         out += self.line(ind, "let %s := fun (e : pyexn) %s =>" % (hn, pat), ast.copy_location(ast.Expr(value=ast.Name(id="try / except", ctx=ast.Load())), s.handlers[0]))
         i = ind + 1
         for h in s.handlers:
@@ -1416,12 +1490,10 @@ class FunctionTranslator:
             out += self.block(h.body, he, hk, i + 1)
             out += self.line(i, "else")
         out += self.line(i, k.exc(henv, "e") + " in")
-        bk = kk.derive(exc=lambda e2, ex: (self.check_state(s, names, env, e2), "%s %s %s" % (hn, _paren(ex), tup))[1],
-                       states=kk.states + tuple(names), in_try=True)
-        out += self.block(s.body, env.copy(), bk, ind)
+        out += body_text
         if rest and nfall > 1:
             out = _close(out, ")")
-            e3 = self.after_join(env, allnames, [s])
+            e3 = self.prune_moved(self.after_join(env, allnames, [s]), mark)
             out += self.line(ind, "(fun %s =>" % jpat)
             out += _close(after(e3, ind), ")")
         return out
@@ -1494,7 +1566,8 @@ class FunctionTranslator:
             return self.line(i2, ret(e2, "tt", NONE, fn))
 
         k = K(fall=fall, cont=None, brk=None, ret=ret, exc=lambda e2, ex: "Fail %s" % _paren(ex))
-        self.cur_states, self.cur_frozen = set(), set()
+        self.cur_states, self.cur_frozen, self.cur_outer, self.moved_log = set(), set(), set(), []
+        self.last_record_fields = []
         body = self.block(list(fn.body), env, k, 1)
         params = " ".join("(%s : %s)" % (v_(n), coq_type(t)) for n, t in zip(self.params, spec["params"]))
         rty = " * ".join([_paren(coq_type(spec["params"][i])) for i in spec["out"]] + [_paren(coq_type(spec["ret"]))])
